@@ -369,14 +369,14 @@ var sharedRules = map[string][]string{
 	"C01": {"C04/*", "C05/*", "C06/*", "C07/PAR-ROLE", "C07/PAR-RESIZE", "C07/PAR-GLOBALIDX", "C07/LAY-DEPTH", "C08/*", "C09/*", "C10/*", "C11/*", "C12/*", "C13/*", "C14/*", "C16/*", "C02/HND-AGREE", "C02/PEEP-DEPTH", "C02/PEEP-MEASURED", "C02/PEEP-GLUE", "C02/PEEP-SPLIT", "C02/PEEP-BOUND", "C07/INS-PATCH", "C07/FRM-PAIR"},
 	"C02": {"C04/OPS-IMM", "C20/POS-FUSED", "C09/LAY-EVALORDER"},
 	"C03": {"C14/REP-PRINT"},
-	"C04": {"C02/HND-AGREE", "C11/REP-RAWSLICE", "C11/REP-SLICE", "C12/REP-DEFTYPE", "C12/REP-DEFCONV", "C07/FRM-PAIR", "C16/TAB-PRIORITY", "C16/LOAD-TYPEDEPS"},
+	"C04": {"C02/HND-AGREE", "C11/REP-RAWSLICE", "C11/REP-SLICE", "C12/REP-DEFTYPE", "C12/REP-DEFCONV", "C07/FRM-PAIR", "C16/TAB-PRIORITY", "C16/LOAD-TYPEDEPS", "C17/RELOAD-INPLACE"},
 	"C05": {"C02/HND-AGREE", "C06/LAY-SHAPE", "C06/LAY-TARGET", "C07/INS-PATCH", "C06/PAR-LINEBREAK"},
 	"C06": {"C07/PAR-ROLE", "C08/SCO-BLOCK", "C08/SCO-PAIR", "C07/PAR-RESIZE", "C02/PEEP-DEPTH", "C02/PEEP-SPLIT", "C02/PEEP-GLUE", "C02/PEEP-MEASURED", "C02/PEEP-BOUND", "C02/HND-AGREE"},
 	"C07": {"C06/LAY-SHAPE", "C06/LAY-TARGET", "C06/LAY-REWRITE", "C02/PEEP-MEASURED", "C02/PEEP-DEPTH", "C09/FRM-CHECKS", "C09/FRM-VARIADIC", "C09/LAY-FUNC", "C09/FRM-INVOKE", "C09/FRM-PARAMSLOT", "C09/FRM-METHOD", "C15/LOAD-SLOTS", "C06/PAR-LINEBREAK"},
 	"C09": {"C02/HND-AGREE", "C07/PAR-RESIZE", "C07/FRM-PAIR", "C07/INS-PATCH", "C07/PAR-GLOBALIDX", "C07/LAY-DEPTH", "C07/PAR-ROLE", "C08/SCO-DECL"},
 	// comma-ok lookups and `range m` are compiled by the shared declaration / range cases
 	"C10": {"C02/HND-AGREE", "C16/LOAD-TYPEDEPS", "C07/PAR-RESIZE", "C08/SCO-RHSFIRST"},
-	"C11": {"C04/REP-TYPEDSTORE", "C02/HND-AGREE", "C07/LAY-DEPTH", "C08/SCO-RHSFIRST"},
+	"C11": {"C04/REP-TYPEDSTORE", "C02/HND-AGREE", "C07/LAY-DEPTH", "C08/SCO-RHSFIRST", "C04/TAB-CAST"},
 	// the slicing wrapper and the operand checks are shared between slices and strings
 	"C13": {"C11/REP-SLICE"},
 	// what is printed is the value the arithmetic produced (negative zero, untyped results)
